@@ -341,6 +341,29 @@ def unit_other_coefs(ctx):
 
 
 # ------------------------------------------------------------------ spline plan set-up
+def replay_spline_index():
+    def replay(wit):
+        """Native: a spline plan with spline_size != nalpha; the exponents get_q2a assigns to the spline nodes must come back from get_a2q_fast as 0, 1, ..., spline_size-1."""
+        from pyvc import native
+        native.install_shim()
+        from ciderpress.dft.plans import NLDFSplinePlan
+        from ciderpress.dft.settings import NLDFSettingsVJ
+        st = NLDFSettingsVJ("MGGA", [1.0, 0.03, 0.0], "one", ["se"], [[1.0, 0.03, 0.0]])
+        out = {}
+        bad = False
+        for nalpha, ssz in ((8, 15), (6, 16)):
+            plan = NLDFSplinePlan(st, 1, 0.01, 1.8, nalpha, coef_order="gq", raise_large_expnt_error=False, spline_size=ssz)
+            j = np.arange(ssz, dtype=np.float64)
+            dense = plan.get_q2a(j * (plan.nalpha - 1) / (ssz - 1))
+            di = plan.get_a2q_fast(np.ascontiguousarray(dense))[0]
+            err = float(np.max(np.abs(di[:-1] - j[:-1])))
+            out["nalpha=%d,spline_size=%d" % (nalpha, ssz)] = err
+            bad = bad or err > 1e-8
+        out["reproduced"] = bad
+        return out
+    return replay
+
+
 def unit_spline_setup(ctx):
     from contracts.planharness import install_coef_contract
     it = ctx.interp
@@ -376,12 +399,56 @@ def unit_spline_setup(ctx):
     st = it.call(sm.ns["NLDFSettingsVJ"], ["MGGA", th, "one", ["se_erf_rinv", "se_ar2", "se_erf_rinv"], fp], {})
     a0, lam = tm.var("alpha0"), tm.var("lambd")
     it.hyps = hyps + [tm.mk_lt(tm.ZERO, a0), tm.mk_lt(tm.ONE, lam)]
+    # the exponent <-> index pair: get_q2a by a recording contract (fresh exponent symbols, one per index it is asked for), the C routines cider_ind_* as its inverse
+    # (assumed: the two are each other's inverse), cider_ind_clip as the identity inside the table
+    q2a_log = {}
+
+    def q2a(interp, f, args, kwargs):
+        qs = np.asarray(args[1], dtype=object).reshape(-1)
+        out = np.empty(len(qs), dtype=object)
+        for k, q in enumerate(qs):
+            key = tm.lift(q)
+            if key not in q2a_log:
+                q2a_log[key] = tm.var("expnt_of_index_%d" % len(q2a_log))
+            out[k] = q2a_log[key]
+        return out
+    it.overrides[PMOD + ":NLDFAuxiliaryPlan.get_q2a"] = q2a
+    from pyvc.npmodel import CPtr
+    arr_of = lambda p_: p_.arr if isinstance(p_, CPtr) else p_
+
+    def ind(interp, di, derivi, expnt, n, a0_, lam_):
+        di, derivi, expnt = arr_of(di), arr_of(derivi), arr_of(expnt)
+        inv = {v: k for k, v in q2a_log.items()}
+        for k in range(int(n)):
+            e = tm.lift(expnt.reshape(-1)[k])
+            di.reshape(-1)[k] = inv[e] if e in inv else ufn("IDX", [e])
+            derivi.reshape(-1)[k] = ufn("DIDX", [e])
+    lib_ = pm.ns["libcider"].name
+    for nm in ("cider_ind_etb", "cider_ind_zexp"):
+        it.externals["%s.%s" % (lib_, nm)] = ind
+    it.externals["%s.cider_ind_clip" % lib_] = lambda interp, *a: None
     for order in ("gq", "qg"):
         try:
+            q2a_log.clear()
             plan = it.call(pm.ns["NLDFSplinePlan"], [st, 1, a0, lam, nalpha], {"coef_order": order, "raise_large_expnt_error": False, "spline_size": 3})
         except (Unsupported, PyRaise) as e:
             ctx.undecided("NLDFSplinePlan[%s] constructed" % order, str(e)[:200], fq)
             continue
+        # node placement (real _run_setup) against the run-time index map (real get_a2q_fast): the exponent at which spline node j was tabulated must be given index j
+        nodes = sorted(q2a_log.items(), key=lambda kv: float(tm.evaluate(kv[0], {})))
+        fqi = [PMOD + ":NLDFSplinePlan.get_a2q_fast", PMOD + ":NLDFSplinePlan._run_setup"]
+        ctx.holds("NLDFSplinePlan[%s]: _run_setup tabulates one exponent per spline node (spline_size = 3 nodes for nalpha = %d)" % (order, nalpha), len(nodes) == 3, "%d" % len(nodes), fqi)
+        try:
+            dense = np.array([v for _, v in nodes], dtype=object)
+            di, derivi = it.call_method(plan, "get_a2q_fast", [dense])
+            for j in range(len(nodes)):
+                ctx.equal("NLDFSplinePlan[%s]: the exponent tabulated at spline node %d is mapped back to index %d by get_a2q_fast" % (order, j, j), it.hyps, np.asarray(di, dtype=object)[j], tm.const(j), fqi,
+                          replay=replay_spline_index())
+                if j > 0:
+                    ctx.equal("NLDFSplinePlan[%s]: node %d: the index derivative carries the same spline-density factor as the index" % (order, j), it.hyps,
+                              tm.lift(np.asarray(derivi, dtype=object)[j]) * nodes[j][0], tm.const(j) * ufn("DIDX", [nodes[j][1]]), fqi, replay=replay_spline_index())
+        except (Unsupported, PyRaise) as e:
+            ctx.undecided("NLDFSplinePlan[%s].get_a2q_fast runs" % order, str(e)[:200], fqi)
         tabs = plan.fields["_alpha_transform"]
         ctx.holds("NLDFSplinePlan[%s]: one spline table per feature parameter set plus one for theta" % order, len(tabs) == 4, "%d" % len(tabs), fq)
         if len(tabs) != 4:
@@ -790,6 +857,9 @@ def units():
     from contracts import c09
     for version in ("j", "ij"):
         u.append(("generator-history/%s" % version, c09.unit_generator_history(version, "MGGA")))
+    # the fast SDMX shell kernels evaluate the documented convolved orbitals only if their per-thread work blocks are cleared before they are accumulated into
+    for fn in ("SDMXcontract_smooth0", "SDMXcontract_rsq0", "SDMXcontract_smooth1", "SDMXcontract_rsq1"):
+        u.append(("c-accumulators-cleared/" + fn, c09.unit_c_accumulators_cleared("mod_cider/fast_sdmx.c", fn, "ectr", lambda a: [tm.mk_le(a["ngrids"], tm.lift(56)), tm.mk_le(a["nctr"], tm.lift(40)), tm.mk_le(a["nprim"], tm.lift(40))])))
     # the real spherical harmonics through which every fast path projects and evaluates (value contract against the specification, shared with C06)
     from contracts import c06
     for L in (1, 2, 3, 4, 5):
